@@ -145,6 +145,7 @@ Definition observe tk ug terminals smart start fuel texts calls
           sx_bool (hyps_ok ug start p);
           SL (map (fun src => sx_tokens (s_tokens tk src)) texts);
           SL (map (fun c => sx_res sx_tree (s_call tk p fuel texts c)) calls);
+          sx_bool (is_ambiguous (p_tables p));       (* is_ambiguous() asked again after the calls: no history *)
           match second with
           | None => SL []
           | Some (smart2, start2, calls2) =>
@@ -152,7 +153,8 @@ Definition observe tk ug terminals smart start fuel texts calls
               | Err e => SL [SZ 1; SZ (err_code e)]
               | Ok p2 =>
                   SL [SZ 0; sx_bool (is_ambiguous (p_tables p2));
-                      SL (map (fun c => sx_res sx_tree (s_call tk p2 fuel texts c)) calls2)]
+                      SL (map (fun c => sx_res sx_tree (s_call tk p2 fuel texts c)) calls2);
+                      sx_bool (is_ambiguous (p_tables p2))]
               end
           end]
   end.
